@@ -3,8 +3,10 @@ package scen
 import (
 	"bytes"
 	"crypto/cipher"
+	"crypto/x509/pkix"
 	"fmt"
 	"io"
+	"math/big"
 	"os"
 	"path/filepath"
 	"runtime"
@@ -15,6 +17,7 @@ import (
 
 	"github.com/anishathalye/porcupine"
 	"github.com/tjfoc/gmsm/gmtls"
+	"github.com/tjfoc/gmsm/pkcs12"
 	"github.com/tjfoc/gmsm/sm2"
 	"github.com/tjfoc/gmsm/sm3"
 	"github.com/tjfoc/gmsm/sm4"
@@ -30,7 +33,7 @@ import (
 // the Go race detector evaluated on the simulated interleaving (race build).
 
 var concFaults = []string{"preempt", "lock-contended", "curve-first-use", "close-during-write", "rotation-during-handshake", "pct-schedule", "dense-preemption", "transport-write-blocks", "peer-transport-abort"}
-var concReach = []string{"block-shared", "pkg-sign", "pkg-encrypt", "pkg-hash", "pkg-sm4", "pkg-parse", "pkg-pkcs7-ber", "pkg-verify-chain", "cache-linearizable", "cache-eviction", "pool-verify", "pool-verify-rejecting", "conn-linearizable", "conn-close-raced", "write-after-close-failed", "config-handshakes", "config-rotated", "config-resumed", "config-followup-resumption-owed", "config-rotation-inside-ticket-code", "conn-multi-record-writes", "conn-write-inside-last-flight", "conn-quiet-peer", "conn-concurrent-ekm", "conn-hello-request", "conn-renegotiation-started", "conn-deadline-interrupt", "tasks>=8", "tasks>=16", "porcupine-unknown"}
+var concReach = []string{"block-shared", "pkg-sign", "pkg-encrypt", "pkg-hash", "pkg-sm4", "pkg-parse", "pkg-pkcs7-ber", "pkg-verify-chain", "pkg-sm4-modes", "pkg-key-codec", "pkg-create-cert", "pkg-pkcs12", "pkg-key-exchange", "cache-linearizable", "cache-eviction", "pool-verify", "pool-verify-rejecting", "conn-linearizable", "conn-close-raced", "write-after-close-failed", "config-handshakes", "config-rotated", "config-resumed", "config-followup-resumption-owed", "config-rotation-inside-ticket-code", "conn-multi-record-writes", "conn-write-inside-last-flight", "conn-quiet-peer", "conn-concurrent-ekm", "conn-hello-request", "conn-renegotiation-started", "conn-deadline-interrupt", "tasks>=8", "tasks>=16", "porcupine-unknown"}
 
 func init() {
 	for i, p := range []struct {
@@ -213,6 +216,11 @@ const (
 	pkParse
 	pkP7
 	pkChain
+	pkSM4Modes
+	pkKeyCodec
+	pkCreateCert
+	pkP12
+	pkKeyExchange
 	pkCount
 )
 
@@ -298,6 +306,116 @@ func doPkgOp(op pkgOp) []byte {
 		}
 		e := p7.Verify()
 		return []byte(fmt.Sprintf("%d|%x|%v", len(p7.Certificates), sm3.Sm3Sum(p7.Content), e))
+	case pkSM4Modes:
+		key := make([]byte, 16)
+		st.Read(key)
+		iv := make([]byte, 12)
+		st.Read(iv)
+		cf, err := sm4.Sm4CFB(key, data, true)
+		if err != nil {
+			return []byte("cfb-err:" + err.Error())
+		}
+		cfd, _ := sm4.Sm4CFB(key, cf, false)
+		of, err := sm4.Sm4OFB(key, data, true)
+		if err != nil {
+			return []byte("ofb-err:" + err.Error())
+		}
+		// (whole blocks only: the decrypt helper indexes past a partial last block of
+		// its input - a matter of C12, a pure function outside this technique)
+		gin := make([]byte, (len(data)+15)/16*16)
+		copy(gin, data)
+		ct, tag, err := sm4.Sm4GCM(key, iv, gin, []byte("aad"), true)
+		if err != nil {
+			return []byte("gcm-err:" + err.Error())
+		}
+		pt, tag2, _ := sm4.Sm4GCM(key, iv, ct, []byte("aad"), false)
+		return bytes.Join([][]byte{cf, cfd, of, ct, tag, pt, tag2}, []byte{'|'})
+	case pkKeyCodec:
+		priv, err := sm2.GenerateKey(st)
+		if err != nil {
+			return []byte("keygen-err:" + err.Error())
+		}
+		var pwd []byte
+		if op.n%2 == 1 {
+			pwd = []byte("pass-" + fmt.Sprint(op.n))
+		}
+		pemKey, err := x509.WritePrivateKeyToPem(priv, pwd) // (encrypted form: salt and IV from the library's random source)
+		if err != nil {
+			return []byte("writepem-err:" + err.Error())
+		}
+		back, err := x509.ReadPrivateKeyFromPem(pemKey, pwd)
+		if err != nil {
+			return []byte("readpem-err:" + err.Error())
+		}
+		pubPem, err := x509.WritePublicKeyToPem(&priv.PublicKey)
+		if err != nil {
+			return []byte("writepub-err:" + err.Error())
+		}
+		pub, err := x509.ReadPublicKeyFromPem(pubPem)
+		if err != nil {
+			return []byte("readpub-err:" + err.Error())
+		}
+		hx := x509.WritePrivateKeyToHex(priv)
+		fromHex, err := x509.ReadPrivateKeyFromHex(hx)
+		if err != nil {
+			return []byte("hex-err:" + err.Error())
+		}
+		return []byte(fmt.Sprintf("%x|%v|%v|%v|%s|%x", priv.D, back.D.Cmp(priv.D) == 0 && back.X.Cmp(priv.X) == 0, pub.X.Cmp(priv.X) == 0 && pub.Y.Cmp(priv.Y) == 0, fromHex.D.Cmp(priv.D) == 0, pubPem, sm2.Compress(&priv.PublicKey)))
+	case pkCreateCert:
+		priv, err := sm2.GenerateKey(st)
+		if err != nil {
+			return []byte("keygen-err:" + err.Error())
+		}
+		tmpl := &x509.Certificate{SerialNumber: new(big.Int).SetUint64(op.seed), Subject: pkix.Name{CommonName: fmt.Sprintf("conc-%d", op.n), Organization: []string{"verifsim"}},
+			NotBefore: simkit.TimeAt(-3600e9), NotAfter: simkit.TimeAt(3600e9), KeyUsage: x509.KeyUsageDigitalSignature | x509.KeyUsageCertSign, BasicConstraintsValid: true, IsCA: true,
+			SignatureAlgorithm: x509.SM2WithSM3, DNSNames: []string{fmt.Sprintf("h%d.sim", op.n)}}
+		der, err := x509.CreateCertificate(tmpl, tmpl, &priv.PublicKey, priv)
+		if err != nil {
+			return []byte("create-err:" + err.Error())
+		}
+		cert, err := x509.ParseCertificate(der)
+		if err != nil {
+			return []byte("parse-err:" + err.Error())
+		}
+		e1 := cert.CheckSignatureFrom(cert)
+		other := pki.Cert("caA")
+		e2 := cert.CheckSignatureFrom(other)
+		pool := x509.NewCertPool()
+		pool.AddCert(cert)
+		_, e3 := cert.Verify(x509.VerifyOptions{Roots: pool, CurrentTime: simkit.TimeAt(0), DNSName: fmt.Sprintf("h%d.sim", op.n)})
+		return []byte(fmt.Sprintf("%s|%x|%v|%v|%v|%v", cert.Subject.CommonName, cert.SerialNumber, cert.DNSNames, e1, e2 != nil, e3))
+	case pkP12:
+		name := []string{"srv-sign", "cli", "srv-enc"}[op.n%3]
+		pwd := fmt.Sprintf("p12-%d", op.n)
+		pfx, err := pkcs12.Encode(pki.SM2Key(name), pki.Cert(name), nil, pwd)
+		if err != nil {
+			return []byte("p12enc-err:" + err.Error())
+		}
+		k, cert, err := pkcs12.Decode(pfx, pwd)
+		if err != nil {
+			return []byte("p12dec-err:" + err.Error())
+		}
+		_, _, e2 := pkcs12.Decode(pfx, pwd+"x")
+		kk, _ := k.(*sm2.PrivateKey)
+		return []byte(fmt.Sprintf("%v|%x|%v", kk != nil && kk.D.Cmp(pki.SM2Key(name).D) == 0, cert.SerialNumber, e2 != nil))
+	case pkKeyExchange:
+		a, err := sm2.GenerateKey(st)
+		if err != nil {
+			return []byte("keygen-err:" + err.Error())
+		}
+		b, _ := sm2.GenerateKey(st)
+		ra, _ := sm2.GenerateKey(st)
+		rb, _ := sm2.GenerateKey(st)
+		ida, idb := []byte("alice"), data
+		k1, s1, s2, err := sm2.KeyExchangeB(16+op.n%17, ida, idb, b, &a.PublicKey, rb, &ra.PublicKey)
+		if err != nil {
+			return []byte("kxb-err:" + err.Error())
+		}
+		k2, t1, t2, err := sm2.KeyExchangeA(16+op.n%17, ida, idb, a, &b.PublicKey, ra, &rb.PublicKey)
+		if err != nil {
+			return []byte("kxa-err:" + err.Error())
+		}
+		return bytes.Join([][]byte{k1, k2, s1, s2, t1, t2}, []byte{'|'})
 	case pkChain:
 		name := []string{"srv-sign", "srvint-sign", "cli", "srvB-sign"}[op.n%4]
 		cert, err := x509.ParseCertificate(pki.DER(name))
@@ -318,8 +436,8 @@ func boolByte(b bool) byte {
 	return 0
 }
 
-var pkgOpNames = []string{"sm2.Sign/Verify", "sm2.Encrypt/Decrypt", "sm3", "sm4.Sm4Ecb/Sm4Cbc", "x509.ParseCertificate", "x509.ParsePKCS7", "x509.(*Certificate).Verify"}
-var pkgReach = []string{"pkg-sign", "pkg-encrypt", "pkg-hash", "pkg-sm4", "pkg-parse", "pkg-pkcs7-ber", "pkg-verify-chain"}
+var pkgOpNames = []string{"sm2.Sign/Verify", "sm2.Encrypt/Decrypt", "sm3", "sm4.Sm4Ecb/Sm4Cbc", "x509.ParseCertificate", "x509.ParsePKCS7", "x509.(*Certificate).Verify", "sm4.Sm4CFB/Sm4OFB/Sm4GCM", "x509 key PEM/hex codecs", "x509.CreateCertificate", "pkcs12.Encode/Decode", "sm2.KeyExchangeA/B"}
+var pkgReach = []string{"pkg-sign", "pkg-encrypt", "pkg-hash", "pkg-sm4", "pkg-parse", "pkg-pkcs7-ber", "pkg-verify-chain", "pkg-sm4-modes", "pkg-key-codec", "pkg-create-cert", "pkg-pkcs12", "pkg-key-exchange"}
 
 func runConcPkg(c *simkit.Choice, r *simkit.Rec) {
 	pki.Load()
@@ -330,11 +448,14 @@ func runConcPkg(c *simkit.Choice, r *simkit.Rec) {
 	for i := range ops {
 		n := c.Range(1, 2, simkit.LOp)
 		for j := 0; j < n; j++ {
-			k := c.Weighted([]int{2, 2, 3, 3, 2, 3, 1}, simkit.LOp)
-			if (k == pkSign || k == pkEncrypt || k == pkChain) && heavy >= 6 {
+			k := c.Weighted([]int{2, 2, 3, 3, 2, 3, 1, 2, 1, 1, 1, 1}, simkit.LOp)
+			isHeavy := func(k int) bool {
+				return k == pkSign || k == pkEncrypt || k == pkChain || k == pkKeyCodec || k == pkCreateCert || k == pkP12 || k == pkKeyExchange
+			}
+			if isHeavy(k) && heavy >= 6 {
 				k = pkHash
 			}
-			if k == pkSign || k == pkEncrypt || k == pkChain {
+			if isHeavy(k) {
 				heavy++
 			}
 			ops[i] = append(ops[i], pkgOp{kind: k, seed: uint64(c.Choose(1<<31, simkit.LData)) + 3, n: c.Range(1, 90, simkit.LOp)})
@@ -347,7 +468,7 @@ func runConcPkg(c *simkit.Choice, r *simkit.Rec) {
 		// value): restrict it to operations that create all their keys themselves
 		for i := range ops {
 			for j := range ops[i] {
-				if k := ops[i][j].kind; k == pkParse || k == pkP7 || k == pkChain {
+				if k := ops[i][j].kind; k == pkParse || k == pkP7 || k == pkChain || k == pkCreateCert || k == pkP12 {
 					ops[i][j].kind = []int{pkSign, pkEncrypt, pkHash}[k%3]
 				}
 			}
